@@ -316,7 +316,7 @@ def run_gen(spec, res):
             has_q = any(n.meta.get('xsi_type') for _, n in tree.walk())
             case = {'family': fam, 'version': version, 'doc': text, 'fault': fault}
             compare_document(res, xmlschema, schema, text, f'{fam}/{fault}', case, has_q, scratch, rng, spec['tier'], (fam, fault))
-            if res.evaluations % 700 < 30:
+            if len(res.samples) < 2:
                 res.sample({'family': fam, 'fault': fault, 'version': version, 'doc_chars': len(text)})
 
 
